@@ -255,6 +255,16 @@ def run(ctx: Ctx):
     for e in evs[:2] + evs[-1:]:
         ctx.sample(e)
     judge(ctx, evs)
+    # growth (Rebuild.tla): objects with non-default constructor arguments along the routes they travel in practice
+    ctx.design_check("MCRebuild", "MCRebuild.cfg", label="Rebuild (growth): every route carries every field", workers=1)
+    from ..rebuild import probe
+    res = probe()
+    ctx.notes["growth_object_routes"] = {"routes_travelled": sum(1 for r in res if r["error"] is None),
+                                         "routes_not_offered": sorted({f"{r['cls']}:{r['route']}" for r in res if r["error"] is not None}),
+                                         "fields_changed_on_the_way": [r for r in res if r["differing"]]}
+    for r in res:
+        if r["differing"]:
+            ctx.drift.append({"clauses": ["growth_object_changed_on_its_way"], "cls": r["cls"], "route": r["route"], "fields": r["differing"]})
 
 
 def replay(ctx: Ctx, case):
